@@ -390,3 +390,83 @@ class SetVal(Contract):
                                     Iff(B(st1['inaccuracy']), B(st0['inaccuracy'])))
             out['idem_log'] = log == ['value_change']
         return out
+
+
+# ==========================================================================================================
+@contract
+class Monotone(Contract):
+    """Product run (C05 monotonicity, oracle-free): the real set_val is executed on two inputs v1 <= v2 in one
+    exploration; under saturate the stored codes satisfy code1 <= code2."""
+    name = 'lemma:C05.monotone'
+    layer = 6
+    uses = ('utils:wrap', 'utils:clip', 'objects:Fxp._get_conv_factor', 'objects:Fxp._round', 'objects:Fxp._overflow_action')
+    props = {'*': ['C05']}
+
+    def configs(self, tier):
+        fm = [(s, n, f) for (s, n, f) in core_formats('quick')]
+        if tier == 'quick':
+            fm = fm[::3]
+        for (signed, n, f) in fm:
+            for rule in ROUNDINGS:
+                yield dict(signed=signed, n_word=n, n_frac=f, rule=rule)
+
+    def inputs(self, cfg, D):
+        f = cfg['n_frac']
+        lim = min(Fraction(2**53), Fraction(2**62) * pow2(-f))
+        v1 = D.real('v1', -lim, lim, True, True)
+        v2 = D.real('v2', -lim, lim, True, True)
+        D.assume(M(v1) <= M(v2))
+        return {'v1': v1, 'v2': v2}
+
+    def run(self, cfg, P, inp):
+        c = {'rounding': cfg['rule'], 'overflow': 'saturate'}
+        x1 = make_fxp(P, cfg['signed'], cfg['n_word'], cfg['n_frac'], codes=[0], shape=(), cfg=c, vdtype=float)
+        x2 = make_fxp(P, cfg['signed'], cfg['n_word'], cfg['n_frac'], codes=[0], shape=(), cfg=c, vdtype=float)
+        x1.set_val(inp['v1']); x2.set_val(inp['v2'])
+        return {'c1': x1.val, 'c2': x2.val}
+
+    def post(self, cfg, inp, obs):
+        if obs['exc']:
+            return {}
+        return {'monotone': M(elems(obs['c1'])[0]) <= M(elems(obs['c2'])[0])}
+
+
+@contract
+class QSanity(Contract):
+    """Spec lemmas guarding the reference quantizer Q itself (no library code involved): idempotent on
+    representable values, within one LSB when not overflowing, monotone under saturate, wrap is the identity
+    on in-range values and invariant under shifts by the modulus."""
+    name = 'lemma:Q.sanity'
+    layer = 0
+    props = {'*': ['C05'], 'wrap_period': ['C03'], 'idempotent_wrap': ['C03', 'C05']}
+
+    def configs(self, tier):
+        fm = [(s, n, f) for (s, n, f) in core_formats('quick') if n <= (8 if tier == 'quick' else 32)]
+        for (signed, n, f) in fm:
+            for rule in ROUNDINGS:
+                yield dict(signed=signed, n_word=n, n_frac=f, rule=rule)
+
+    def inputs(self, cfg, D):
+        n = cfg['n_word']
+        lo, hi = range_of(cfg['signed'], n)
+        span = 1 << (n + 2)
+        # r, t: exact scaled inputs v*2^n_frac (any real); c: a code; k: a number of modulus periods
+        return {'r': D.real('r', -span, span), 't': D.real('t', -span, span), 'c': D.int('c', lo, hi), 'k': D.int('k', -3, 3)}
+
+    def run(self, cfg, P, inp):
+        return {}
+
+    def post(self, cfg, inp, obs):
+        s, n, rule = cfg['signed'], cfg['n_word'], cfg['rule']
+        lo, hi = range_of(s, n)
+        r, t, c, k = M(inp['r']), M(inp['t']), M(inp['c']), M(inp['k'])
+        qs = lambda x: OVF(ROUND(x, rule), s, n, 'saturate')
+        qw = lambda x: OVF(ROUND(x, rule), s, n, 'wrap')
+        shifted = r + k * (1 << n)
+        # rounding toward zero is translation invariant only while the sign is kept
+        same_side = Or(And(r >= 0, shifted >= 0), And(r <= 0, shifted <= 0)) if rule in ('trunc', 'fix') else True
+        return {'idempotent_sat': eq(qs(c), c), 'idempotent_wrap': eq(qw(c), c),
+                'within_lsb': Implies(And(r >= lo, r <= hi), And(qs(r) - r < 1, r - qs(r) < 1)),
+                'monotone_sat': Implies(r <= t, qs(r) <= qs(t)),
+                'in_range': And(qs(r) >= lo, qs(r) <= hi, qw(r) >= lo, qw(r) <= hi),
+                'wrap_period': Implies(same_side, eq(qw(shifted), qw(r)))}
